@@ -170,7 +170,7 @@ func c06Concurrent(tier string) []fw.Scenario {
 				b = bound - 1
 			}
 			scns = append(scns, fw.Scenario{ID: "C06/conc/" + p.name + "/" + sh.name, Group: p.name, Run: func(c *fw.Ctx) {
-				c.Explore(fw.Case{Name: sh.name, Bound: b, Sample: true, Make: func() fw.Instance {
+				c.Explore(fw.Case{Name: sh.name, Bound: b, Sample: true, Opts: vrt.Options{DelayBounded: p.name == "ObserveOn(1)"}, Make: func() fw.Instance {
 					rec := h.NewRec("out")
 					rec.YieldIn = true
 					marks := &c06Marks{}
